@@ -438,6 +438,19 @@ func main() {
 				os.WriteFile(rp, js, 0o644)
 				found = append(found, verdict{class: "race:" + where, msg: "the race detector reports a data race in " + where + " (auxiliary -race stage, seed " + fmt.Sprint(rseed) + ")", replay: rp})
 			}
+			if i := strings.Index(o, "PARALLEL-STAGE VIOLATION:"); i >= 0 {
+				msg := o[i:]
+				if j := strings.Index(msg, "\n"); j > 0 {
+					msg = msg[:j]
+				}
+				reports++
+				rp := filepath.Join(replayDir, fmt.Sprintf("%s-%s-%d-parallel-%d.json", prop, *tier, rseed, reports))
+				rf := map[string]interface{}{"property": prop, "kind": "parallel", "stage": "auxiliary real-parallel stage (runtime monitoring, not simulation)", "seed": rseed, "report": msg,
+					"replay_cmd": fmt.Sprintf("VERIF_RACE=1 VERIF_SEED=%d .work/race.test -test.run '^%s$'", rseed, meta.RaceTest)}
+				js, _ := json.MarshalIndent(rf, "", " ")
+				os.WriteFile(rp, js, 0o644)
+				found = append(found, verdict{class: "race:parallel-stage-oracle", msg: msg, replay: rp})
+			}
 			if strings.Contains(o, "functional problem in the race stage") {
 				fmt.Fprintln(os.Stderr, "NOTE: the -race stage's clients saw a functional problem (not a race):", lastLines(o, 3))
 			}
